@@ -10,7 +10,9 @@ EvOf(e) == [k |-> e.k, ok |-> e.ok, init |-> e.init, fault |-> e.fault, code |->
 TInit == tid \in 1..Len(Traces) /\ l = 1 /\ obs = InitObs /\ bad = ""
 Step == /\ bad = "" /\ l <= Len(T.ev)
         /\ LET e == EvOf(T.ev[l])
-               n == Observe(obs, e, T.ninit) IN
+               \* (the length of the bring-up this step belongs to, where the trace says so: a repair that finds
+               \* the device locked in its bootloader has a longer bring-up than one that finds it in the signer)
+               n == Observe(obs, e, IF T.ev[l].n > 0 THEN T.ev[l].n ELSE T.ninit) IN
              /\ obs' = n
              /\ bad' = FirstFailL(Clauses(obs, n, e, 0 - T.deverr_abs))
         /\ l' = l + 1 /\ UNCHANGED tid
